@@ -72,6 +72,20 @@ Theorem C08_await_blocks : forall hooks orc m pred s s' t,
 Proof. exact run_pass_await. Qed.
 Print Assumptions C08_await_blocks.
 
+(* The await step waits for all: one weight step of handleHooks collects every call awaited at
+   that point (already pending there, or just started with its await at this very point),
+   independently of which of them fail and of what the hook tasks of the weight do, and leaves
+   nothing awaited at that point in the pending set.  (Calls.AwaitAll returns only when every call
+   of the slice has returned; an early return on the first error / first result breaks this.) *)
+Theorem C08_await_all : forall hooks orc m w s s' t f c i,
+  do_weight hooks orc m w s = (s', t, f, c) ->
+  (In ((m, w), i) (e_pend s) \/
+   exists h, In h hooks /\ is_call h = true /\ h_trig h = (m, w) /\ h_await h = (m, w) /\ i = new_inst orc h) ->
+  In (TCollect i (m, w)) t /\ ~ In ((m, w), i) (e_pend s') /\
+  (forall q j, In (q, j) (e_pend s') -> q <> (m, w)).
+Proof. exact do_weight_await_all. Qed.
+Print Assumptions C08_await_all.
+
 (* callsPendingAwait is exact: over any history, for every set [g] of call instances, the
    instances started so far are the ones collected so far plus the ones pending (counted with
    multiplicity, so nothing is collected twice and nothing is lost) *)
